@@ -565,7 +565,98 @@ func crashGen(c *Ctx) {
 	if c.Want("prog") {
 		crashProg(c, w)
 	}
+	if c.Want("apu") {
+		crashApu(c, w)
+	}
 	w.Close()
+}
+
+// crashApu: a playing sound channel disturbed a given number of machine cycles after its trigger - triggered again,
+// DAC switched off and on, power cycled, frequency / wave RAM / polynomial rewritten - for every delay up to a bound,
+// at the fastest frequencies (where every phase of the channel's timer and position is met) and at a few others.
+func crashApu(c *Ctx, w *trace.Writer) {
+	maxDelay := 140
+	freqs := []int{0x7ff, 0x7fe, 0x7fd, 0x7fc, 0x7f8, 0x7e0, 0x700, 0x400, 0x000}
+	if !c.Thorough() {
+		freqs = []int{0x7ff, 0x7fe, 0x7fc, 0x7e0, 0x400}
+	}
+	type dist struct {
+		name string
+		do   func(m *machine.Machine, ch, f int)
+	}
+	trig := func(m *machine.Machine, ch, f int) {
+		base := 0xff10 + 5*ch
+		m.M.Write(uint16(base+3), uint8(f&0xff))
+		m.M.Write(uint16(base+4), uint8(0x80|f>>8&7))
+	}
+	dists := []dist{
+		{"retrigger", trig},
+		{"dac", func(m *machine.Machine, ch, f int) {
+			a := []int{0xff12, 0xff17, 0xff1a, 0xff21}[ch]
+			m.M.Write(uint16(a), 0x00)
+			m.M.Write(uint16(a), 0xf0)
+			trig(m, ch, f)
+		}},
+		{"power", func(m *machine.Machine, ch, f int) {
+			m.M.Write(0xff26, 0x00)
+			m.M.Write(0xff26, 0x80)
+			trig(m, ch, f)
+		}},
+		{"rewrite", func(m *machine.Machine, ch, f int) {
+			base := 0xff10 + 5*ch
+			m.M.Write(uint16(base+3), uint8(f>>3))
+			m.M.Write(uint16(base+1), uint8(f))
+			m.M.Write(uint16(base+2), uint8(f|0x08))
+			for i := 0; i < 16; i++ {
+				m.M.Write(uint16(0xff30+i), uint8(f+i))
+			}
+			for i := 0; i < 16; i++ {
+				m.M.Read(uint16(0xff30 + i))
+			}
+		}},
+	}
+	for ch := 0; ch < 4; ch++ {
+		for _, f := range freqs {
+			for _, d := range dists {
+				for delay := 0; delay <= maxDelay; delay++ {
+					sc := &trace.Scenario{ID: fmt.Sprintf("crash-apu-ch%d-f%03x-%s-%d", ch+1, f, d.name, delay), Reset: map[string]any{"fam": "apu", "ch": ch, "f": f, "what": d.name, "delay": delay}}
+					m := machine.New(intROM, machine.Options{NoCPU: true})
+					sc.Ev = append(sc.Ev, []any{"ctor", 1})
+					cycles := 0
+					perr := machine.Try(func() {
+						m.M.Write(0xff26, 0x80)
+						m.M.Write(0xff25, 0xff)
+						m.M.Write(0xff24, 0x77)
+						for i := 0; i < 16; i++ {
+							m.M.Write(uint16(0xff30+i), uint8(0x10*i+15-i))
+						}
+						m.M.Write(0xff10, 0x11)
+						m.M.Write(0xff12, 0xf3)
+						m.M.Write(0xff17, 0xf3)
+						m.M.Write(0xff1a, 0x80)
+						m.M.Write(0xff1c, 0x20)
+						m.M.Write(0xff21, 0xf3)
+						m.M.Write(0xff22, uint8(f))
+						trig(m, ch, f)
+						for i := 0; i < delay; i++ {
+							m.Hardware()
+							cycles++
+						}
+						d.do(m, ch, f)
+						for i := 0; i < 60; i++ {
+							m.Hardware()
+							cycles++
+						}
+					})
+					sc.Ev = append(sc.Ev, []any{"ops", cycles})
+					if perr != "" {
+						sc.Ev = append(sc.Ev, []any{"panic", perr})
+					}
+					w.Put(sc)
+				}
+			}
+		}
+	}
 }
 
 // crashRerun: the scenarios are regenerated from their family with the same seed; the ids select which to keep.
